@@ -87,6 +87,8 @@ func main() {
 	switch os.Args[1] {
 	case "run":
 		cmdRun(os.Args[2:])
+	case "replay":
+		os.Exit(cmdReplay(os.Args[2:]))
 	case "check":
 		os.Exit(cmdCheck(os.Args[2:]))
 	default:
@@ -161,4 +163,3 @@ func printResult(res *sym.HarnessResult) {
 	}
 }
 
-func cmdCheck(args []string) int { return 0 }
